@@ -210,6 +210,20 @@ func cmdDraw(args []string) {
 				em.Emit(mkDrawEv(n, words, res3, used3, kind3))
 			}
 		}
+		if len(rejected) >= 1 { // long chains of rejected words: 9 and 13 in a row, then an ordinary word
+			for _, k := range []int{9, 13} {
+				words := []uint32{}
+				for j := 0; j < k; j++ {
+					words = append(words, rejected[j%len(rejected)])
+				}
+				words = append(words, fol()...)
+				res, used, kind := drawOnce(n, words)
+				em.Emit(mkDrawEv(n, words, res, used, kind))
+				tail := words[k:]
+				res2, used2, kind2 := drawOnce(n, tail)
+				em.Emit(mkDrawEv(n, tail, res2, used2, kind2))
+			}
+		}
 		if len(rejected) >= 2 {
 			words := append([]uint32{rejected[0], rejected[1], rejected[len(rejected)-1]}, fol()...)
 			res, used, kind := drawOnce(n, words)
